@@ -239,6 +239,13 @@ func Main(props map[string]*Prop) int {
 	}
 	total := len(fixed) + cases
 	seenClass := map[string]bool{}
+	knownClass := map[string]bool{}
+	for _, k := range strings.Split(os.Getenv("VERIF_KNOWN_CLASSES"), ",") {
+		if k != "" {
+			knownClass[k] = true
+		}
+	}
+	unlisted := 0
 	for i := worker; i < total; i += nworkers {
 		if time.Now().After(deadline) {
 			res.Stats.Count("stopped_at_deadline", 1)
@@ -272,6 +279,9 @@ func Main(props map[string]*Prop) int {
 			code = 2
 			return code
 		}
+		if knownClass[v.Class] {
+			res.Stats.Count("known_finding_hits", 1)
+		}
 		if seenClass[v.Class] {
 			res.Stats.Count("violations_same_class_not_minimised", 1)
 			continue
@@ -279,8 +289,12 @@ func Main(props map[string]*Prop) int {
 		seenClass[v.Class] = true
 		fv := minimiseAndSave(p, sc, c, v, seed, tier, replayDir, deadline)
 		res.Violations = append(res.Violations, fv)
+		if knownClass[v.Class] {
+			continue // listed in known_findings.json: reported once, exploration goes on
+		}
 		code = 1
-		if len(res.Violations) >= maxViol {
+		unlisted++
+		if unlisted >= maxViol {
 			break
 		}
 	}
